@@ -125,7 +125,10 @@ def ops_small(doc):
                 ops.append(("before", pi, k, r))
                 ops.append(("after", pi, k, r))
         ops.append(("sort", pi))
-        ops.append(("del", pi, keys[-1]))
+        if keys:
+            ops.append(("del", pi, keys[-1]))
+        else:
+            ops.append(("set", pi, "N", "n"))
     ops.append(("insert", 0, NEWPARS[0]))
     ops.append(("append", NEWPARS[0]))
     return ops
